@@ -75,8 +75,10 @@ Definition cb_enqueue (e:evt) : M unit := push_msg (QEv e SRC_MSG_QUEUE 0%Z fals
 Definition cb := callback cb_submit cb_enqueue.
 Definition cb_at := callback_at cb_submit cb_enqueue.
 
-(* events forwarded by exit points of a submachine arrive as process_event on this machine *)
-Definition absorb_up : M unit := ups <- take_up ;; iterM cb_submit ups.
+(* events forwarded by exit points arrive as process_event on the OUTERMOST machine: fill_states / set_containing_sm
+   hand the same containing_sm pointer down through every nesting level (state_machine.hpp add_state), so an exit
+   point at depth 2 is wired to the root, not to the machine whose table has the row leaving it *)
+Definition absorb_up : M unit := if contained then ret tt else (ups <- take_up ;; iterM cb_submit ups).
 Definition in_child {A} (s:nat) (dflt:A) (m:M A) : M A := r <- lift_child s dflt m ;; absorb_up ;; ret r.
 
 Definition defer_event (e:evt) : M unit :=
